@@ -49,6 +49,9 @@ class MySQLTranslator(SQLTranslator):
 
 class MySQLValue(Value):
     __slots__ = []
+    def quote_str(self, s):
+        # backslash is an escape character inside MySQL string literals (unless NO_BACKSLASH_ESCAPES is set)
+        return Value.quote_str(self, s.replace('\\', '\\\\'))
     def __str__(self):
         value = self.value
         if isinstance(value, timedelta):
